@@ -132,6 +132,8 @@ structure IH (env : Env) (fuel : Nat) : Prop where
   renderBlk : ∀ b st, Pres st (renderBlk env fuel b st).2
   condLoop : ∀ cs els st, PresTail st (condLoop env fuel cs els st).2
   inLoop : ∀ sv o body i st, PresTail st (inLoop env fuel sv o body i st).2
+  inLoopB : ∀ sv o w body i st, PresTail st (inLoopB env fuel sv o w body i st).2
+  inBatch : ∀ sv o bp w body els cache st, Pres st (inBatch env fuel sv o bp w body els cache st).2
   letLoop : ∀ binds body st, PresTail st (letLoop env fuel binds body st).2
 
 theorem ih_zero (env : Env) : IH env 0 where
@@ -149,6 +151,8 @@ theorem ih_zero (env : Env) : IH env 0 where
   renderBlk := fun b st => by unfold renderBlk; exact Pres.refl _
   condLoop := fun cs els st => by unfold condLoop; exact (Pres.refl _).toTail
   inLoop := fun sv o body i st => by unfold inLoop; exact (Pres.refl _).toTail
+  inLoopB := fun sv o w body i st => by unfold inLoopB; exact (Pres.refl _).toTail
+  inBatch := fun sv o bp w body els cache st => by unfold inBatch; exact Pres.refl _
   letLoop := fun binds body st => by unfold letLoop; exact (Pres.refl _).toTail
 
 theorem getitem_step (env : Env) (fuel : Nat) (ih : IH env fuel) (key : Text) (call : Bool) (st : St) :
@@ -515,6 +519,149 @@ theorem inLoop_step (env : Env) (fuel : Nat) (ih : IH env fuel) (sv : SeqVars) (
       · rename_i x fs h; exact prestail_settop st0 _ fs _ h
       · exact (Pres.refl _).toTail
 
+theorem inLoopB_step (env : Env) (fuel : Nat) (ih : IH env fuel) (sv : SeqVars) (o : InOpts) (w : BWin)
+    (body : List Blk) (i : Nat) (st : St) : PresTail st (inLoopB env (fuel + 1) sv o w body i st).2 := by
+  have key : ∀ (sv' sv'' : SeqVars) (st1 : St), PresTail st st1 →
+      PresTail st (match inIter env fuel sv' o body i st1 with
+        | (.ok p, st2) =>
+          (match inLoopB env fuel sv'' o w body (i + 1) st2 with
+           | (.ok ps, st3) => ((.ok (p :: ps) : Res (List Piece)), st3)
+           | r => r)
+        | (.raise e, st2) => (.raise e, st2)
+        | (.ret v, st2) => (.ret v, st2)
+        | (.oom, st2) => (.oom, st2)).2 := by
+    intro sv' sv'' st1 h1
+    have h2 := ih.inIter sv' o body i st1
+    generalize inIter env fuel sv' o body i st1 = res at h2
+    obtain ⟨r, st2⟩ := res
+    cases r with
+    | ok p =>
+      simp only
+      have h3 := ih.inLoopB sv'' o w body (i + 1) st2
+      generalize inLoopB env fuel sv'' o w body (i + 1) st2 = res3 at h3
+      obtain ⟨r3, st3⟩ := res3
+      cases r3 <;> exact h1.trans (h2.toTail.trans h3)
+    | raise e => exact h1.trans h2.toTail
+    | ret v => exact h1.trans h2.toTail
+    | oom => exact h1.trans h2.toTail
+  simp only [inLoopB]
+  split
+  · exact (Pres.refl _).toTail
+  · have hg : PresTail st (if env.guardOn = true then { st with trace := st.trace ++ [Event.gitem 0 i] } else st) := by
+      split
+      · exact (show Pres st _ from ⟨rfl, rfl⟩).toTail
+      · exact (Pres.refl _).toTail
+    generalize (if env.guardOn = true then { st with trace := st.trace ++ [Event.gitem 0 i] } else st) = st0 at hg ⊢
+    split
+    · split
+      · exact hg.trans (ih.inLoopB _ _ _ _ _ _)
+      · exact hg
+    · apply key
+      refine hg.trans ?_
+      split
+      · rename_i x fs h; exact prestail_settop st0 _ fs _ h
+      · exact (Pres.refl _).toTail
+
+/-- frames pushed on top, something that keeps everything below the top frame, then as many frames dropped -/
+theorem pres_push_drop (st st2 : St) (fs : List Frame) (hne : fs ≠ [])
+    (hl : PresTail { st with stack := fs ++ st.stack } st2) :
+    Pres st { st2 with stack := st2.stack.drop fs.length } := by
+  obtain ⟨l1, l2, l3⟩ := hl
+  refine ⟨?_, l3⟩
+  cases fs with
+  | nil => exact absurd rfl hne
+  | cons f fs' =>
+    simp only [List.cons_append, List.tail_cons, List.map_append, List.length_cons] at l1 l2 ⊢
+    have : (st2.stack.drop (fs'.length + 1)).map erase = ((st2.stack.tail).map erase).drop fs'.length := by
+      rw [← List.map_drop, List.drop_tail]
+    rw [this, l2]
+    have hl' : fs'.length = (fs'.map erase).length := by simp
+    rw [hl', List.drop_left]
+
+/-- computing sort keys (calling callable keys) leaves the namespace alone -/
+theorem sortKeyOf_pres (env : Env) (m : Bool) (k : Text) (x : Val) (st : St) : Pres st (sortKeyOf env m k x st).2 := by
+  unfold sortKeyOf
+  dsimp only
+  split
+  · split <;> exact ⟨rfl, rfl⟩
+  all_goals exact Pres.refl _
+
+theorem sortKeys_pres (env : Env) (m : Bool) (k : Text) (xs : List Val) (st : St) : Pres st (sortKeys env m k xs st).2 := by
+  induction xs generalizing st with
+  | nil => exact Pres.refl _
+  | cons x xs ih =>
+    unfold sortKeys
+    have h := sortKeyOf_pres env m k x st
+    generalize sortKeyOf env m k x st = res at h
+    obtain ⟨r, st'⟩ := res
+    cases r with
+    | ok key =>
+      dsimp only
+      have h2 := ih st'
+      generalize sortKeys env m k xs st' = res2 at h2
+      obtain ⟨r2, st''⟩ := res2
+      cases r2 <;> exact h.trans h2
+    | raise e => exact h
+    | ret v => exact h
+    | oom => exact h
+
+theorem sortPart_pres (env : Env) (o : InOpts) (x : InXOpts) (xs : List Val) (st : St) :
+    Pres st (sortPart env o x xs st).2 := by
+  unfold sortPart
+  cases x.sortKey with
+  | none => exact Pres.refl _
+  | some k =>
+    dsimp only
+    have h := sortKeys_pres env o.mapping k xs st
+    generalize sortKeys env o.mapping k xs st = res at h
+    obtain ⟨r, st'⟩ := res
+    cases r with
+    | ok dec => dsimp only; split <;> exact h
+    | raise e => exact h
+    | ret v => exact h
+    | oom => exact h
+
+theorem arrange_pres (env : Env) (o : InOpts) (x : InXOpts) (xs : List Val) (st : St) :
+    Pres st (arrange env o x xs st).2 := by
+  unfold arrange
+  have h := sortPart_pres env o x xs st
+  generalize sortPart env o x xs st = res at h ⊢
+  obtain ⟨r, st'⟩ := res
+  cases r <;> exact h
+
+/-- one frame on top of some others pushed, something that keeps everything below the top frame, then all of them dropped -/
+theorem pres_push_drop1 (st s : St) (f : Frame) (cache : List Frame)
+    (h : PresTail { st with stack := (f :: cache) ++ st.stack } s) :
+    Pres st { s with stack := s.stack.drop (cache.length + 1) } :=
+  pres_push_drop st s (f :: cache) (List.cons_ne_nil _ _) h
+
+theorem inBatch_step (env : Env) (fuel : Nat) (ih : IH env fuel) (sv0 : SeqVars) (o : InOpts) (bp : BatchP) (w : BWin)
+    (body : List Blk) (els : Option (List Blk)) (cache : List Frame) (st : St) :
+    Pres st (inBatch env (fuel + 1) sv0 o bp w body els cache st).2 := by
+  unfold inBatch
+  dsimp only
+  split
+  · split
+    · exact pres_push_drop1 _ _ _ _ (ih.renderJoined _ _).toTail
+    · cases els with
+      | some e => exact pres_push_drop1 _ _ _ _ (ih.renderJoined _ _).toTail
+      | none => exact pres_push_drop1 _ _ _ _ (Pres.refl _).toTail
+  · split
+    · split
+      · exact pres_push_drop1 _ _ _ _ (ih.renderJoined _ _).toTail
+      · cases els with
+        | some e => exact pres_push_drop1 _ _ _ _ (ih.renderJoined _ _).toTail
+        | none => exact pres_push_drop1 _ _ _ _ (Pres.refl _).toTail
+    · have hl := ih.inLoopB sv0 o w body w.first { st with stack := (Frame.seq sv0 :: cache) ++ st.stack }
+      generalize inLoopB env fuel sv0 o w body w.first { st with stack := (Frame.seq sv0 :: cache) ++ st.stack } = res at hl ⊢
+      obtain ⟨r, s⟩ := res
+      have hfin := pres_push_drop1 st s _ cache hl
+      cases r with
+      | ok ps => dsimp only; split <;> exact hfin
+      | raise e => exact hfin
+      | ret x => exact hfin
+      | oom => exact hfin
+
 theorem renderBlk_step (env : Env) (fuel : Nat) (ih : IH env fuel) (b : Blk) (st : St) :
     Pres st (renderBlk env (fuel + 1) b st).2 := by
   cases b with
@@ -700,6 +847,62 @@ theorem renderBlk_step (env : Env) (fuel : Nat) (ih : IH env fuel) (b : Blk) (st
     | raise e => exact h
     | ret v => exact h
     | oom => exact h
+  | inx_ src o x body els =>
+    unfold renderBlk
+    dsimp only
+    have h := ih.evalSrc src st
+    generalize evalSrc env fuel src st = res at h
+    obtain ⟨r, st'⟩ := res
+    cases r with
+    | ok v =>
+      dsimp only
+      split
+      · split <;> exact h
+      · split
+        · rw [oneRes_snd]; exact h.trans (ih.renderJoined _ _)
+        · exact h
+      · rename_i _ xs hne heq
+        have ha := arrange_pres env o x xs st'
+        generalize arrange env o x xs st' = resa at ha ⊢
+        obtain ⟨ra, st1⟩ := resa
+        cases ra with
+        | ok ys =>
+          dsimp only
+          generalize cacheOf src v = cache
+          have ha : Pres st' st1 := ha
+          cases x.batch with
+          | none =>
+            dsimp only
+            have hl := ih.inLoop { items := ys, mapping := o.mapping, prefix_ := o.prefix_ } o body 0
+                { st1 with stack := (Frame.seq { items := ys, mapping := o.mapping, prefix_ := o.prefix_ } :: cache) ++ st1.stack }
+            generalize inLoop env fuel { items := ys, mapping := o.mapping, prefix_ := o.prefix_ } o body 0
+                { st1 with stack := (Frame.seq { items := ys, mapping := o.mapping, prefix_ := o.prefix_ } :: cache) ++ st1.stack } = res2 at hl ⊢
+            obtain ⟨r2, st2⟩ := res2
+            have hfin := pres_push_drop st1 st2 _ (List.cons_ne_nil _ _) hl
+            cases r2 with
+            | ok ps => simp only; split <;> exact h.trans (ha.trans hfin)
+            | raise e => exact h.trans (ha.trans hfin)
+            | ret x => exact h.trans (ha.trans hfin)
+            | oom => exact h.trans (ha.trans hfin)
+          | some bp =>
+            dsimp only
+            have hq := ih.getitem (txt "QUERY_STRING") true st1
+            generalize getitem env fuel (txt "QUERY_STRING") true st1 = resq at hq ⊢
+            obtain ⟨rq, st2⟩ := resq
+            have hq : Pres st1 st2 := hq
+            have hb := ih.inBatch (batchInit { items := ys, mapping := o.mapping, prefix_ := o.prefix_ } (bwinOf bp ys.length))
+              o bp (bwinOf bp ys.length) body els cache st2
+            cases rq with
+            | oom => exact h.trans (ha.trans hq)
+            | ok q => dsimp only; rw [oneRes_snd]; exact h.trans (ha.trans (hq.trans hb))
+            | raise e => dsimp only; rw [oneRes_snd]; exact h.trans (ha.trans (hq.trans hb))
+            | ret q => dsimp only; rw [oneRes_snd]; exact h.trans (ha.trans (hq.trans hb))
+        | raise e => exact h.trans ha
+        | ret v => exact h.trans ha
+        | oom => exact h.trans ha
+    | raise e => exact h
+    | ret v => exact h
+    | oom => exact h
 
 /-- every interpreter function, at every fuel, preserves the namespace and the level -/
 theorem all_preserve (env : Env) : ∀ fuel, IH env fuel := by
@@ -722,6 +925,8 @@ theorem all_preserve (env : Env) : ∀ fuel, IH env fuel := by
       renderBlk := renderBlk_step env n ih
       condLoop := condLoop_step env n ih
       inLoop := inLoop_step env n ih
+      inLoopB := inLoopB_step env n ih
+      inBatch := inBatch_step env n ih
       letLoop := letLoop_step env n ih }
 
 /-! #### the property -/
